@@ -63,7 +63,7 @@ pub fn replay_sampler2(id: &str, fl: &str, a: &[u64], words: &[u64]) -> Option<(
             Some((x >= 1.0 && x <= n, format!("Zipf({:?}, {:?}).sample(words {:?}) = {:?} (support [1, n])", n, s, words, x))) }
         "zeta" if !a.is_empty() => { let s = f64::from_bits(a[0]); let d = rd::Zeta::<f64>::new(s).ok()?;
             let mut rng = ScriptRng::new(words, 0x5eed); let x: f64 = d.sample(&mut rng);
-            Some((x >= 1.0, format!("Zeta({:?}).sample(words {:?}) = {:?}", s, words, x))) }
+            Some((x >= 1.0 && (s < 2.0 || x.is_finite()), format!("Zeta({:?}).sample(words {:?}) = {:?}", s, words, x))) }
         "normal_tail_pos" | "normal_tail_neg" => {
             // first word fixed by the unit (layer 0, |u| extreme), the decoded words are the tail words
             let neg = id.ends_with("neg");
